@@ -419,14 +419,6 @@ impl Schema {
             let extensions = extensions.clone();
 
             asynk_strim::stream_fn(|mut yielder| async move {
-                let subscription = match schema.subscription_root() {
-                    Ok(subscription) => subscription,
-                    Err(err) => {
-                        yielder.yield_item(Response::from_errors(vec![err])).await;
-                        return;
-                    }
-                };
-
                 let (env, _) = match prepare_request(
                     extensions,
                     request.inner,
@@ -453,6 +445,14 @@ impl Schema {
                         .await;
                     return;
                 }
+
+                let subscription = match schema.subscription_root() {
+                    Ok(subscription) => subscription,
+                    Err(err) => {
+                        yielder.yield_item(Response::from_errors(vec![err])).await;
+                        return;
+                    }
+                };
 
                 let ctx = env.create_context(
                     &schema.0.env,
